@@ -22,6 +22,13 @@ def pivot():
     S.append(EnumSpec("DisAttr", [U("A", props=[[("k", "a")]]), U("H1", disabled=True, message="m", flags_last=True, props=[[("k", "h")]]),
                                   U("B", props=[[("k", "b"), ("n", 2)]], message="mb"), U("H2", disabled=True, attr_style="trailing", props=[[("n", 9)]])],
                       derives=d, note="`disabled` after a key = value item in the same attribute / trailing comma, next to props"))
+    S.append(EnumSpec("SameShape", [
+        U("Text", props=[[("level", "1"), ("on", "true")]]), U("Typed", props=[[("level", 1), ("on", True)]]),
+        U("TypedAgain", props=[[("level", 1), ("on", True)]]), U("Mixed", props=[[("level", "1"), ("on", True)]]),
+    ], derives=d, note="variants with the same keys in the same order whose values READ the same but have different literal types"))
+    S.append(EnumSpec("Repeat", [
+        U("A", props=[[("size", "large")], [("size", 42), ("size", True)]]), U("B", props=[[("size", 1)], [("size", "s")]]),
+    ], derives=d, note="one key declared with all three types on one variant, split over groups"))
     S.append(EnumSpec("Kw", [
         U("A", props=[[("type", "t"), ("fn", 1), ("match", True)]]),
         U("B", props=[[("r#type", "raw")]] if False else [[("self", "s")], [("type", 2)]]),
